@@ -100,6 +100,7 @@ func runC10(p *core.Prog, r *core.Result) {
 		"R10.2 the version order handed to the MVS library: Max returns one of its two arguments as decided by cmpVersion, which ranks the root's empty version above every other before delegating to semver; Required answers the root's list exactly for the empty path",
 		"R10.3 the build list handed back to dawn contains every element the MVS library returned",
 		"R10.4 ordered results built from Go-map iteration inside internal/mvs are sorted before use or are order-insensitive; no map is folded into another under a colliding key",
+		"R10.7 locating the repository that owns a project path never returns 'the first answer received' from concurrent dials: which repository answers cannot depend on timing",
 		"R10.6 the version-resolution packages never order strings with < <= > >= (versions and major suffixes are ordered by semver.Compare only)",
 		"R10.5 a fetched project's summary lists every requirement of its configuration, one to one, in sorted name order",
 	}
@@ -394,6 +395,47 @@ func runC10(p *core.Prog, r *core.Result) {
 			r.Unk("R10.5", "internal/mvs.(*Resolver).resolveProject#summary", p.Pos(rp.Pos()), "store of mvsProject.Requirements not found")
 		} else {
 			r.Check(ok, "R10.5", "internal/mvs.(*Resolver).resolveProject#all-requirements", p.InstrPos(at), "the summary's requirement list has one entry per requirement of the fetched configuration, in sorted name order", "the summary's requirement list is not built one-to-one from the configuration's requirements in sorted order: requirement edges can be merged or dropped, and projects reachable only through them vanish from the build list")
+		}
+	}
+
+	// ---- R10.7 the repository that answers is not "whichever goroutine answered first"
+	if fpr := need(p, r, "R10.7", "internal/mvs", "Resolver", "findProjectRepository"); fpr != nil {
+		nF, nBad := 0, 0
+		for f := range staticClosure(p, fpr) {
+			if f.Pkg == nil || f.Pkg.Pkg.Path() != pkgMvs {
+				continue
+			}
+			nF++
+			for _, ret := range core.ReturnsOf(f) {
+				vals := core.RetVals(ret)
+				if len(vals) == 0 {
+					continue
+				}
+				// a value received from a channel in the same loop the return sits in: the first message that
+				// qualifies ends the search, so the order of arrival decides
+				var recv *ssa.UnOp
+				core.DependsOn(vals[0], core.SliceOpts{Stores: true}, func(x ssa.Value) bool {
+					if u, ok := x.(*ssa.UnOp); ok && u.Op == token.ARROW {
+						recv = u
+						return true
+					}
+					return false
+				})
+				if recv == nil {
+					continue
+				}
+				rb, xb := ret.Block(), recv.Block()
+				inLoop := core.Reaches(xb, xb, false) && (rb == xb || (core.Reaches(xb, rb, false) && core.BlockReachesAvoiding(xb, ret, func(in ssa.Instruction) bool { return false })))
+				// the return is an early exit of the receive loop when the receive block can be reached again
+				// without passing the return: i.e. the loop would have gone on receiving
+				if inLoop {
+					nBad++
+					r.Bad("R10.7", fmt.Sprintf("%s#first-answer-wins-%d", fname(f), nBad), p.InstrPos(ret), "the repository returned is the first successful answer received from concurrently running dials: when two prefixes of the path are both repositories (a directory split out of a monorepo) the one that answers first wins, so the requirements read for path@version - and with them the build list - depend on timing instead of on the longest-prefix rule")
+				}
+			}
+		}
+		if nBad == 0 {
+			r.OK("R10.7", "internal/mvs.(*Resolver).findProjectRepository#order-independent-of-timing", p.Pos(fpr.Pos()), "no return yields a value picked by order of arrival on a channel (%d function(s) examined)", nF)
 		}
 	}
 
